@@ -68,7 +68,13 @@ class C20(Check):
     title = "convenience transform constructors follow their documented conventions"
 
     def depth(self):
-        return 2 if self.tier == "quick" else 3
+        return 2 if self.tier == "quick" else 4
+
+    def _angles(self):
+        if self.tier == "quick":
+            return ANGLES_DEG
+        # thorough: every multiple of 15 degrees in (-360, 360) plus the beyond-one-turn letters and two generic angles
+        return sorted(set(ANGLES_DEG + list(range(-345, 360, 15)) + [7, -112.5]))
 
     def roots(self):
         out = []
@@ -144,7 +150,7 @@ class C20(Check):
     def ops(self, st, level):
         k = st["kind"]
         if k == "rot":
-            return [("turn", a) for a in ANGLES_DEG]
+            return [("turn", a) for a in (self._angles() if level < 2 else ANGLES_DEG)]
         if level > 0:
             return []
         if k in ("axisangle", "quat"):
@@ -155,7 +161,7 @@ class C20(Check):
             for s in (0.5, 2.0, 1.0):
                 out.append(("scale_about", s))
             if d == 2:
-                for a in ANGLES_DEG:
+                for a in self._angles():
                     out.append(("rotate_about", a, "deg"))
                     out.append(("rotate_about", a, "rad"))
                 for phi, psi in ((10, 20), (-15, 5), (0, 30)):
@@ -392,7 +398,7 @@ class C20(Check):
         fails = self._about_oracle("rotate_ccw_about_centre", T, plain, obj, True)
         if not isinstance(T, Homogeneous):
             fails.append(Failure("rotate_ccw_about_centre", "class", type(T).__name__))
-        if deg and op[1] == ANGLES_DEG[5]:
+        if deg and op[1] == 30:
             T_default = rotate_ccw_about_centre(obj, val)  # degrees is the documented default
             if np.abs(T_default.h_matrix - T.h_matrix).max() > 1e-12:
                 fails.append(Failure("rotate_ccw_about_centre", "default-unit", "default unit is not degrees"))
